@@ -93,7 +93,7 @@ func run(r *enumx.Run, replay *enumx.ReplayCase) {
 		return
 	}
 	algs, fromSource := buildAlgs()
-	r.Rule("complete product, no sampling: every algorithm name (the three Supported* lists + every Algorithm_* constant of consts.go + junk names) x every key (oct 1..72 bytes, RSA-2048, P-256/384/521, Ed25519, public and private) x plaintext length 0..64,65,100 x nonce length 0..32 x tag length 0..32 x associated data {nil, empty, 5 bytes} through Encrypt/EncryptSymmetric and Decrypt/DecryptSymmetric; aeskw and aescbcaead directly for every KEK / key size; every (asymmetric algorithm, key kind) pair x 4-5 message lengths; aeskw and A*KW also for key data of 42, 43, 44, 64, 128 and 10923 blocks (step counter beyond one and two bytes); every sequence of up to 3 operations (valid, failing and panicking ones) on ONE aescbcaead AEAD value per constructor and on ONE jwk.Key from ParseKey, each step compared with the same call on a fresh object; every single-byte change (each position x each xor value, drop last byte, append a byte) of ciphertext, tag, nonce, associated data, wrapped key, label, digest and signature for 3 lengths per algorithm. A case is counted non-trivial when at most one thing is wrong with its inputs (it then reaches the cryptographic code or the one size/kind check that must reject it) or when it is a mutation of a valid output; every case is distinct by construction (index tuple).")
+	r.Rule("complete product, no sampling: every algorithm name (the three Supported* lists + every Algorithm_* constant of consts.go + junk names) x every key (oct 1..72 bytes, RSA-2048, P-256/384/521, Ed25519, public and private) x plaintext length 0..64,65,100 x nonce length 0..32 x tag length 0..32 x associated data {nil, empty, 5 bytes} through Encrypt/EncryptSymmetric and Decrypt/DecryptSymmetric; aeskw and aescbcaead directly for every KEK / key size; every (asymmetric algorithm, key kind) pair x 4-5 message lengths; aeskw and A*KW also for key data of 42, 43, 44, 64, 128 and 10923 blocks (step counter beyond one and two bytes); every sequence of up to 3 operations (valid, failing and panicking ones) on ONE aescbcaead AEAD value per constructor and on ONE jwk.Key from ParseKey, each step compared with the same call on a fresh object; records nonce|tag|ciphertext (and plaintexts) stored back to back in one buffer and processed in every order of two (0,1 / 1,0 / 0,0 / 1,1), every symmetric algorithm, both entry points; for RS*/PS* a genuine signature whose first octet is zero (deterministic search) with that octet removed, and for every signature a prepended octet, a dropped first octet and stripped leading zeros; every single-byte change (each position x each xor value, drop last byte, append a byte) of ciphertext, tag, nonce, associated data, wrapped key, label, digest and signature for 3 lengths per algorithm. A case is counted non-trivial when at most one thing is wrong with its inputs (it then reaches the cryptographic code or the one size/kind check that must reject it) or when it is a mutation of a valid output; every case is distinct by construction (index tuple).")
 	r.Assume("the reference (verif/ref/cryptoref) is correct: standard-library primitives called directly; RFC 3394 and RFC 7518 §5.2 written from the RFC text and anchored by the RFCs' vectors (go test ./ref/cryptoref)")
 	r.Assume("asymmetric keys are fixed (generated once, embedded); symmetric keys, nonces, plaintexts are SHA-256-derived from VERIF_SEED; randomised operations (RSAES, PSS, ECDSA) are judged relationally only")
 	r.Assume("a zero-length octet key cannot be expressed as jwk.Key (jwx refuses it) and is covered only through the aescbcaead constructors; aeskw takes a cipher.Block, so its key sizes are those of crypto/aes")
@@ -469,7 +469,8 @@ func run(r *enumx.Run, replay *enumx.ReplayCase) {
 				})
 			}
 			add("sig-mut", func(u *ctx) {
-				for _, m := range []Mut{{Comp: "signature", Op: "drop-last"}, {Comp: "signature", Op: "append"}, {Comp: "signature", Op: "append", Val: 0xA7}} {
+				for _, m := range []Mut{{Comp: "signature", Op: "drop-last"}, {Comp: "signature", Op: "append"}, {Comp: "signature", Op: "append", Val: 0xA7},
+					{Comp: "signature", Op: "prepend"}, {Comp: "signature", Op: "prepend", Val: 0xA7}, {Comp: "signature", Op: "drop-first"}, {Comp: "signature", Op: "strip-leading-zeros"}} {
 					m2 := m
 					c := Case{Sec: "sig-verify", Alg: a.Name, Key: pub.String(), PT: dl, AAD: di, Mut: &m2}
 					u.count(true)
@@ -483,6 +484,58 @@ func run(r *enumx.Run, replay *enumx.ReplayCase) {
 				})
 			})
 		}
+	}
+
+	// ---- a genuine RSA signature that starts with a zero octet, presented without it
+	findZeroSignatures(algs)
+	zeroFound := map[string]int{}
+	for _, a := range algs {
+		a := a
+		di, ok := zeroSigDigest[a.Name]
+		if !ok {
+			continue
+		}
+		zeroFound[a.Name] = di
+		if di < 0 {
+			r.Incomplete(fmt.Sprintf("%s: no signature with a leading zero octet among %d digests", a.Name, zeroSearchTries))
+			continue
+		}
+		add("sig-mut", func(u *ctx) {
+			dl := a.Ref.Hash.Size()
+			// the signature itself must verify (c.Mut == nil), the shortened ones must not
+			c := Case{Sec: "sig-verify", Alg: a.Name, Key: "RSA-2048/public#A", PT: dl, AAD: di}
+			u.count(true)
+			u.emit(c, u.e.evalVerify(c))
+			for _, m := range []Mut{{Comp: "signature", Op: "drop-first"}, {Comp: "signature", Op: "strip-leading-zeros"}, {Comp: "signature", Op: "prepend"}, {Comp: "signature", Op: "append"}, {Comp: "signature", Op: "drop-last"}} {
+				m2 := m
+				c := Case{Sec: "sig-verify", Alg: a.Name, Key: "RSA-2048/public#A", PT: dl, AAD: di, Mut: &m2}
+				u.count(true)
+				u.emit(c, u.e.evalVerify(c))
+			}
+		})
+	}
+	r.Set("rsa_signature_with_leading_zero_octet_found_at_digest_index", zeroFound)
+
+	// ---- records: nonce|tag|ciphertext (and plaintexts) back to back in one buffer
+	for _, a := range algs {
+		a := a
+		if !(a.Known && a.ListedSym) {
+			continue
+		}
+		add("records", func(u *ctx) {
+			for _, pl := range recordLens(a) {
+				for oi := range recordOrders {
+					for _, enc := range []bool{false, true} {
+						if !enc && !a.Ref.Authenticated() && a.Ref.Class != cryptoref.CBCPad && a.Ref.Class != cryptoref.CBCNoPad {
+							continue
+						}
+						c := Case{Sec: "records", Alg: a.Name, PT: pl, Dst: oi, Raw: enc}
+						u.count(true)
+						u.emit(c, u.e.evalRecords(c))
+					}
+				}
+			}
+		})
 	}
 
 	// ---- run
@@ -534,7 +587,7 @@ func run(r *enumx.Run, replay *enumx.ReplayCase) {
 	}
 	perSec := map[string]int64{}
 	busySec := map[string]float64{}
-	for _, sec := range []string{"sym-enc", "sym-dec", "sym-mut", "kw", "kw-long", "state", "aead", "asym-enc", "asym-dec", "asym-mut", "sig", "sig-mut"} {
+	for _, sec := range []string{"sym-enc", "sym-dec", "sym-mut", "kw", "kw-long", "state", "records", "aead", "asym-enc", "asym-dec", "asym-mut", "sig", "sig-mut"} {
 		if total[sec] == 0 {
 			continue
 		}
@@ -589,6 +642,8 @@ func (e *env) evalCase(c Case) []finding {
 		return e.evalAEAD(c)
 	case "state":
 		return e.evalState(c)
+	case "records":
+		return e.evalRecords(c)
 	case "asym-enc":
 		return e.evalAsymEnc(c)
 	case "asym-dec":
